@@ -1559,6 +1559,26 @@ def check_refusal(rep, rule, c, what, cond_texts, exc, env=None, loop_values=Non
                 wa = [(n_, t_) for n_, t_, _ in wa]
                 def strip(ns):
                     return {n.lstrip("_") for n in ns}
+                # named: `x & (N - 1)` standing in for `x % N` with an N that is not a power of two by construction
+                mods = [x for w in wants for a_ in dl.f_atoms(w, set()) for x in ir.walk(c.eng.atom_ir.get(a_) or ('const', 0))
+                        if x[0] == 'bin' and x[1] == '%']
+                for conds, e, loops, ln, via in raise_sites(c):
+                    if exc is not None and e != exc:
+                        continue
+                    f = _formula(c, conds)
+                    for a_ in dl.f_atoms(f, set()):
+                        e_ = c.eng.atom_ir.get(a_)
+                        for x in ir.walk(e_) if e_ is not None else ():
+                            if x[0] == 'nary' and x[1] == '&':
+                                for mod in mods:
+                                    N = mod[3]
+                                    mask = c.norm(('bin', '-', N, ('const', 1)))
+                                    pow2 = N[0] == 'bin' and N[1] == '**' and N[2] == ('const', 2)
+                                    if mask in x[2] and c.norm(mod[2]) in [c.norm(o) for o in x[2]] and not pow2:
+                                        rep.bad(rule, c.fi.site, what, f"`raise {e}` at line {ln} tests `{ir.show(x)[:80]}` where the documented test is "
+                                                f"`{ir.show(mod)[:80]}`: a mask with N - 1 is the remainder modulo N only when N is a power of two, and "
+                                                f"N = {ir.show(N)[:60]} need not be one (3, 6, ...): some misaligned values pass and some aligned ones are refused")
+                                        return False
                 for conds, e, loops, ln, via in raise_sites(c):
                     if exc is not None and e != exc:
                         continue
